@@ -47,6 +47,8 @@ CONSTANTS
                  \* (accelerated scans return the poller's snapshot until a transition changes the disk)
   AncVals,       \* ancestors a caller may pass to Scan: subset of {"nil", "A", "B"}
   Fulls,         \* values of Scan's full flag: subset of BOOLEAN
+  InitDisks,     \* disks a behaviour may start from: subset of {"A", "E"} ("E": the root does not exist yet,
+                 \* so the first scans return no content and lastSnapshotBytes stays nil)
   Variant        \* "code", or the name of a what-if (see the teeth configurations)
 
 Cfg == [limit |-> Limit, readonly |-> ReadOnly, watch |-> Watch]
@@ -94,7 +96,7 @@ Cancellable(k) == k \in {"Poll", "Scan", "Trans"}
 DriverOp(op) ==
   CASE op.k = "Poll" -> [op |-> "Poll"]
     [] op.k = "Scan" -> [op |-> "Scan", full |-> op.full, cancel |-> FALSE,
-                         anc |-> CASE op.anc = "nil" -> "nil" [] op.anc = "A" -> "prev" [] OTHER -> "junk"]
+                         anc |-> CASE op.anc = "nil" -> "nil" [] op.anc = "A" -> "src" [] OTHER -> "srcmid"]
     [] op.k = "Stage" -> [op |-> "Stage", empty |-> op.paths = <<>>]
     [] op.k = "Supply" -> [op |-> "Supply", empty |-> op.paths = <<>>]
     [] op.k = "Trans" -> [op |-> "Trans", cancel |-> FALSE]
@@ -116,17 +118,24 @@ Reference(e, op) ==
 (* Initial state                                                            *)
 (***************************************************************************)
 NoOp == [k |-> "none"]
-ClIdle(last, dead) ==
-  [pc |-> "idle", op |-> NoOp, lres |-> NoOp, base |-> <<>>, last |-> last, cancelled |-> FALSE, user |-> FALSE,
+\* base: the bytes the delta will be patched against (baselineBytes); sigof: the bytes whose
+\* signature went into the request; csig: only in the "cacheSig" what-if - a signature kept
+\* across calls and dropped only when lastSnapshotBytes is replaced
+ClIdle0(last, dead, csig) ==
+  [pc |-> "idle", op |-> NoOp, lres |-> NoOp, base |-> <<>>, sigof |-> <<>>, csig |-> csig, last |-> last,
+   cancelled |-> FALSE, user |-> FALSE,
    complSent |-> FALSE, respGot |-> FALSE, resp |-> NoOp, rem |-> <<>>, acc |-> NoOp, dead |-> dead]
+ClIdle(last, dead) == ClIdle0(last, dead, IF last = cl.last THEN cl.csig ELSE <<>>)
 SvIdle(dead) == [pc |-> "idle", req |-> NoOp, complGot |-> FALSE, respSent |-> FALSE, rem |-> <<>>, dead |-> dead]
 NoLast == <<>>                 \* lastSnapshotBytes = nil
 
 Init ==
-  /\ cl = ClIdle(NoLast, FALSE) /\ sv = SvIdle(FALSE)
+  /\ cl = ClIdle0(NoLast, FALSE, <<>>) /\ sv = SvIdle(FALSE)
   /\ c2s = <<>> /\ s2c = <<>>
-  /\ epL = EpInit(Cfg) /\ epR = EpInit(Cfg)
-  /\ mis = FALSE /\ done = NoOp /\ nops = 0 /\ nedits = 0 /\ trail = <<>>
+  /\ \E d \in InitDisks :
+       /\ epL = [EpInit(Cfg) EXCEPT !.disk = d, !.snap = d] /\ epR = epL
+       /\ trail = IF d = "E" THEN <<[op |-> "Edit", kind |-> "rm"]>> ELSE <<>>
+  /\ mis = FALSE /\ done = NoOp /\ nops = 0 /\ nedits = 0
 
 Finished(op, l, r, user) == [op |-> op, l |-> l, r |-> r, cancelled |-> user]
 \* the caller must not use an endpoint after an error (unless a scan says TryAgain),
@@ -149,8 +158,10 @@ CStart(op) ==
              /\ done' = Finished(op, ref.res, StageRes("", <<>>, <<>>), FALSE)
              /\ cl' = [cl EXCEPT !.dead = ref.res.err # ""]
              /\ UNCHANGED <<c2s>>
-        ELSE LET base == IF cl.last # NoLast THEN cl.last ELSE AncBytes(op.anc)
-                 msg == CASE op.k = "Scan" -> [t |-> "Req", k |-> "Scan", sig |-> Sig(base), full |-> op.full]
+        ELSE LET \* the baseline: the last snapshot's bytes, else the serialised ancestor OF THIS CALL
+                 base == IF cl.last # NoLast THEN cl.last ELSE AncBytes(op.anc)
+                 sigbytes == IF Variant = "cacheSig" /\ cl.csig # <<>> THEN cl.csig ELSE base
+                 msg == CASE op.k = "Scan" -> [t |-> "Req", k |-> "Scan", sig |-> Sig(sigbytes), full |-> op.full]
                           [] op.k = "Stage" -> [t |-> "Req", k |-> "Stage", paths |-> op.paths]
                           [] op.k = "Supply" -> [t |-> "Req", k |-> "Supply", paths |-> op.paths]
                           [] op.k = "Trans" -> [t |-> "Req", k |-> "Trans", to |-> op.to]
@@ -163,6 +174,8 @@ CStart(op) ==
                          !.base = IF op.k = "Scan"
                                   THEN (IF Variant = "patchAncestor" THEN AncBytes(op.anc) ELSE base)
                                   ELSE <<>>,
+                         !.sigof = IF op.k = "Scan" THEN sigbytes ELSE <<>>,
+                         !.csig = IF op.k = "Scan" /\ Variant = "cacheSig" THEN sigbytes ELSE cl.csig,
                          !.rem = IF op.k = "Supply" THEN op.paths ELSE <<>>,
                          !.acc = IF op.k = "Supply" THEN [err |-> "", tx |-> <<>>] ELSE NoOp]
              /\ UNCHANGED done
@@ -440,6 +453,10 @@ ExportFinished ==
 
 \* every started operation finishes (liveness; checked with FairSpec)
 C21_OperationsFinish == [](cl.pc # "idle" => <>(cl.pc = "idle"))
+
+\* the signature in a scan request is the signature of exactly the bytes the delta
+\* will be patched against - whatever ancestors earlier calls were given
+C21_BaselineConsistent == (cl.pc = "wait" /\ cl.op.k = "Scan") => cl.base = cl.sigof
 
 \* the client's baseline is always the serialisation of a snapshot with content
 C21_BaselineChain == cl.last = NoLast \/ (Decode(cl.last) \in Vals /\ (Decode(cl.last) # "E" \/ Variant = "storeAlways"))
